@@ -6,8 +6,12 @@ dst = os.path.join('/verif/seeded', sid)
 os.makedirs(dst, exist_ok=True)
 for f in os.listdir(src):
     p = os.path.join(src, f)
-    if os.path.isfile(p) and f.endswith(('.c', '.h', '.sh', '.diff', '.json', '.cpp', '.txt')):
+    if os.path.isfile(p) and f.endswith(('.c', '.h', '.sh', '.diff', '.json', '.cpp', '.txt', '.py', '.bin', '.hpp')):
         shutil.copy(p, dst)
+    elif os.path.isdir(p) and not f.startswith(('_', '.')):
+        # support files of the demonstration (stub headers, extra sources); build output is not kept
+        shutil.copytree(p, os.path.join(dst, f), dirs_exist_ok=True,
+                        ignore=shutil.ignore_patterns('*.o', '*.a', '*.so', 'demo', 'demo32', '_build', 'CMakeFiles'))
 m = json.load(open(os.path.join(dst, 'meta.json')))
 m['id'] = sid
 m['confirmed'] = dict(by='tools/confirm_seed.sh in a scratch worktree of /repo HEAD',
